@@ -436,7 +436,7 @@ func checkC15(ctx *core.Ctx, rep *core.Report) {
 		tmplDER := tlsLeafSpec(date(2024, 3, 1), date(2024, 9, 1)).Build()
 		tp := write("sources_probe.pem", pem.EncodeToMemory(&pem.Block{Type: "CERTIFICATE", Bytes: tmplDER}))
 		if o, err := zl.Parse(seeds.Cert, tmplDER); err == nil {
-			for _, src := range lint.GlobalRegistry().Sources() {
+			for _, src := range sortedSources(lint.GlobalRegistry()) { // (Sources() is in map order: every worker must enumerate alike)
 				for _, flag := range []string{"-includeSources", "-excludeSources"} {
 					idx++
 					if !ctx.Mine(idx) {
@@ -448,6 +448,8 @@ func checkC15(ctx *core.Ctx, rep *core.Report) {
 					}
 					want, err := c15Expect(o, fo, "")
 					if err != nil {
+						rep.Inc("source_selection_library_refused")
+						rep.Note("library refuses %s %s: %v", flag, src, err)
 						continue // the library itself refuses: C13's business
 					}
 					r := cliRun{args: []string{flag, string(src), tp}}
